@@ -107,6 +107,8 @@ class SlideGen:
         rng = self.rng
         shared = (rng.randint(0, 3) * 100, rng.randint(0, 3) * 100)
         n = rng.randint(1, 4) if mode != "equal" else rng.randint(2, 4)
+        if mode == "textless":
+            n = 0               # a slide without any text of its own (divider / picture-only slide)
         items, parts, i = [], [], 0
         while i < n:
             if rng.random() < 0.2 and n - i >= 2:      # a group shape with two children (children keep their own offsets)
@@ -133,7 +135,7 @@ def notes_slide_xml(token: str) -> str:
             f'<p:txBody><a:bodyPr/><a:p><a:r><a:t>{token}</a:t></a:r></a:p></p:txBody></p:sp></p:spTree></p:cSld></p:notes>')
 
 
-def package(slides_xml, enc="ascii-refs", notes=None, enc_meta=False):
+def package(slides_xml, enc="ascii-refs", notes=None, enc_meta=False, comments=None):
     """notes: per slide a speaker-notes token or None -> ppt/notesSlides/notesSlideN.xml + slide relationship."""
     import re as _re
     from props.c02 import encode_part
@@ -160,6 +162,11 @@ def package(slides_xml, enc="ascii-refs", notes=None, enc_meta=False):
         z.writestr("_rels/.rels", meta(rels))
         z.writestr("ppt/presentation.xml", meta(pres))
         z.writestr("ppt/_rels/presentation.xml.rels", meta(prels))
+        for i, tok in enumerate(comments or []):
+            if tok is not None:      # reviewer comments of slide i+1 (excluded from the default text)
+                z.writestr(f"ppt/comments/comment{i + 1}.xml", part(
+                    f'<p:cmLst {NS}><p:cm authorId="0" dt="2026-01-0{(i % 8) + 1}T10:00:00.000" idx="1"><p:pos x="10" y="10"/>'
+                    f'<p:text>{tok}</p:text></p:cm></p:cmLst>'))
         for i, tok in enumerate(notes):
             if tok is not None:
                 z.writestr(f"ppt/notesSlides/notesSlide{i + 1}.xml", part(notes_slide_xml(tok)))
@@ -186,7 +193,7 @@ def run_part(ctx):
     gen = SlideGen(rng, next_id)
     decks = []
     for _ in range(ctx.n(70, 1500)):
-        slides = [gen.slide(rng.choice(["equal", "equal", "missing", "mixed", "distinct"])) for _ in range(rng.randint(1, 3))]
+        slides = [gen.slide(rng.choice(["equal", "equal", "missing", "mixed", "distinct", "textless"])) for _ in range(rng.randint(1, 3))]
         decks.append(slides)
     cases, info = [], []
     for slides in decks:
@@ -197,7 +204,8 @@ def run_part(ctx):
         enc_meta = rng.random() < 0.5
         if enc_meta:
             ctx.count("pptx-encoding-of-rels-and-content-types:" + enc)
-        pkg = package([x for _, x in slides], enc, notes, enc_meta)
+        comments = [("C\u00e9q" + str(800000 + gen.next_id[0] + j)) if rng.random() < 0.5 else None for j in range(len(slides))]
+        pkg = package([x for _, x in slides], enc, notes, enc_meta, comments)
         try:
             content = next(PX.read_pptx(io.BytesIO(pkg)))
             full = content.get_full_text()
@@ -214,6 +222,21 @@ def run_part(ctx):
                 ctx.finding("pptx:speaker-notes-in-text", "PPTX: the text of a notes slide (ppt/notesSlides/notesSlideN.xml) appears in "
                             "get_full_text() / a unit's text", {"format": "pptx", "notes_token": tok, "full": full, "encoding": enc})
         ctx.count("pptx:decks-with-notes-slides", 1 if any(notes) else 0)
+        # reviewer comments: collected in PptxSlide.comments, never in the default text (also not for a slide
+        # that has no text of its own)
+        for j, tok in enumerate(comments):
+            if tok is None:
+                continue
+            textless = not slides[j][0]
+            ctx.count("pptx:slides-with-comment" + ("+textless" if textless else ""))
+            if tok in full or any(tok in t for t in unit_texts) or tok in per_slide[j]:
+                ctx.finding("pptx:comment-in-default-text" + (":textless-slide" if textless else ""),
+                            "PPTX: the text of a reviewer comment (ppt/comments/commentN.xml) appears in get_full_text() / a unit's "
+                            "text" + (" of a slide that has no text of its own" if textless else ""),
+                            {"format": "pptx", "comment_token": tok, "slide": j + 1, "slide_xml": slides[j][1], "full": full, "encoding": enc})
+            elif j < len(content.slides) and not any(tok in (c.text or "") for c in content.slides[j].comments):
+                ctx.finding("pptx:comment-not-collected", "PPTX: a reviewer comment is missing from PptxSlide.comments",
+                            {"format": "pptx", "comment_token": tok, "slide": j + 1, "encoding": enc})
         all_expected = []
         for (items, xml), text in zip(slides, per_slide):
             # the key oracle: what _get_shape_position really returns for every generated shape
